@@ -162,6 +162,15 @@ Example cas_example :
   (cs_writes st, forallb rc_done (cs_threads st), option_map (fun p => e_streak (snd p)) (cs_slot st)) = (1%N, true, Some 4%N).
 Proof. vm_compute. reflexivity. Qed.
 
+(* without the window a second advance is legitimate: the late recorder's clock
+   is past the winner's new retry-after *)
+Lemma window_needed_witness :
+  let c := mk_cfg default_initial_ttl default_max_ttl in
+  let k := EZ (mk_zkey [[101;120]]%N 1) in
+  let cur := mk_entry k 2%N 1%N 5000000000 in
+  cs_writes (cas_run c k 2%N (cas_init 7 cur [5000000000; 16000000000] 8) [0; 0; 1; 1]%nat) = 2%N.
+Proof. vm_compute. reflexivity. Qed.
+
 (* -------------------------------------------------------- probe election *)
 Lemma nth_error_set_nth {A} (l : list A) i j x :
   nth_error (set_nth l i x) j = if (i =? j)%nat then (if (i <? length l)%nat then Some x else None) else nth_error l j.
@@ -260,7 +269,7 @@ Proof.
       (* link previous -> current, follow it; the table changes only at the done generation g *)
       split; cbn.
       * intros i0 g'. rewrite nth_error_set_nth. destruct (r =? i0)%nat eqn:Q; [destruct (_ <? _)%nat; discriminate|].
-        intro A. destruct (I1 i0 g' A) as [G [Nd Ln]]. rewrite Gr in G. repeat split; auto.
+        intro A. destruct (I1 i0 g' A) as [G [Nd Ln]]. repeat split; auto.
         -- unfold gen_of in *; cbn. rewrite nth_set_nth_other; auto.
            intro Eq. apply N2Nat.inj in Eq. subst. unfold gen_of in Dn. rewrite Dn in Nd. discriminate.
         -- now rewrite set_nth_length.
